@@ -1,5 +1,8 @@
 import Dashu.Props.C04
 import Dashu.Props.C12
+import Dashu.Props.C01
+import Dashu.Props.C02
+import Dashu.Props.C09
 /-
   C04 ↔ C12: the gcd contract of the rational model composed with the mirrored and proved integer
   gcd of builder-nt.  Kept apart from `Props/C04.lean` so that C04's own theorems do not depend on
@@ -25,6 +28,128 @@ theorem reduce_over_proved_gcd (W : Nat) (hW : 0 < W) (q : Q) (hd : 0 < q.den) (
   · rw [← gcd_contract_is_proved_kernel W hW, gcdK_of_pos_right _ hd]
   · simp [reduce, hn, gcdK_of_pos_right _ hd]
 
+
+-- ------------------------------------------------------------------ ring kernels (C01)
+
+/-- the ring operations `*`, `+`, `−` on `IBig` that the rational model takes at their contract ARE the mirrored
+    and proved word-level kernels of dashu-int (`ibigMul`: Karatsuba/Toom-3 …, `ibigAdd`/`ibigSub`: every
+    ownership form) for every word size ≥ 4 bits — composed with C01's theorems -/
+theorem ring_contracts_are_proved_kernels (W : Nat) (hW : 4 ≤ W) (x y : Int) (form : Nat) :
+    x * y = (ibigMul W (.ofInt W x) (.ofInt W y)).value W ∧
+    x + y = (ibigAdd W (.ofInt W x) (.ofInt W y) form).value W ∧
+    x - y = (ibigSub W (.ofInt W x) (.ofInt W y) form).value W := by
+  have h := Dashu.Props.C01.i_add_sub_of_int W (by omega) x y form
+  exact ⟨(Dashu.Props.C01.i_mul_of_int W hW x y).symm, h.1.symm, h.2.symm⟩
+
+/-- hence `RBig ± integer` (`impl_addsub_int_with_rbig`: `a.$method(rb * i)`) computed with the proved integer
+    kernels stores exactly the model's numerator -/
+theorem add_int_over_proved_kernels (W : Nat) (hW : 4 ≤ W) (sub : Bool) (x : Q) (i : Int) (form : Nat) :
+    (R.addSubInt sub x i).num =
+      (if sub then
+        (ibigSub W (.ofInt W x.num) (.ofInt W ((ibigMul W (.ofInt W x.den) (.ofInt W i)).value W)) form).value W
+      else
+        (ibigAdd W (.ofInt W x.num) (.ofInt W ((ibigMul W (.ofInt W x.den) (.ofInt W i)).value W)) form).value W) := by
+  have hm := (ring_contracts_are_proved_kernels W hW x.den i form).1
+  have ha := ring_contracts_are_proved_kernels W hW x.num ((x.den : Int) * i) form
+  cases sub
+  · simp only [R.addSubInt, Bool.false_eq_true, if_false]; rw [← hm]; exact ha.2.1
+  · simp only [R.addSubInt, if_true]; rw [← hm]; exact ha.2.2
+
+/-- … and the cross-cancelled product of `impl_mul_with_rbig` over the proved `*` -/
+theorem mul_num_over_proved_kernels (W : Nat) (hW : 4 ≤ W) (x y r : Q) (g1 g2 : Nat)
+    (h1 : gcdK x.num.natAbs y.den = .ok g1) (h2 : gcdK x.den y.num.natAbs = .ok g2) (h : R.mul x y = .ok r) :
+    r.num = (ibigMul W (.ofInt W (Int.tdiv x.num g1)) (.ofInt W (Int.tdiv y.num g2))).value W := by
+  rw [← (ring_contracts_are_proved_kernels W hW _ _ 0).1]
+  simp only [R.mul, h1, h2] at h
+  cases h
+  rfl
+
+example : (ibigMul 64 (.ofInt 64 (-3)) (.ofInt 64 5)).value 64 = -15 := by
+  rw [← (ring_contracts_are_proved_kernels 64 (by decide) (-3) 5 0).1]; decide
+
+/-- `UBig::pow` / `IBig::pow` as `Repr::pow` uses them (`upowK`, `ipowK`: sign by parity, shortcuts) ARE the mirrored
+    and proved power kernels of dashu-int (factor-2 removal, `pow_word_base` / `pow_dword_base` / `pow_large_base`) -/
+theorem pow_contracts_are_proved_kernels (W : Nat) (hW : 4 ≤ W) (b n : Nat) (a : Int) :
+    (ubigPow W (ofNat W b) n).value W = upowK b n ∧ (ibigPow W (.ofInt W a) n).value W = ipowK a n ∧
+    ((ibigPow W (.ofInt W a) n).value W < 0 ↔ (a < 0 ∧ n % 2 = 1)) := by
+  have h1 : 1 ≤ W := by omega
+  have wf := SRepr.ofInt_wf W h1 a
+  refine ⟨?_, ?_, ?_⟩
+  · rw [(Dashu.Props.C01.u_pow_exact W hW _ n (ofNat_canon W h1 b)).1, ofNat_value W h1, upowK_eq]
+  · rw [(Dashu.Props.C01.i_pow_exact W hW _ n wf).1, SRepr.ofInt_value W h1, ipowK_eq]
+  · have := Dashu.Props.C01.i_pow_sign W hW _ n wf
+    rw [SRepr.ofInt_value W h1] at this
+    exact this
+
+-- ------------------------------------------------------------------ division kernels (C02)
+
+/-- the integer divisions the rational model takes at their contract — truncated `/` and `%` (reductions by a gcd,
+    `%` of `impl_rem_with_*`, round.rs), `div_euclid` / `rem_euclid` (`impl_euclid_*`) — ARE the mirrored and proved
+    division kernels of dashu-int on every pair of integers, for every word size ≥ 4 bits, panics included -/
+theorem div_contracts_are_proved_kernels (W : Nat) (hW : 4 ≤ W) (a b : Int) :
+    (b = 0 →
+      Div.ibigDiv W (.ofInt W a) (.ofInt W b) = .error .divideByZero ∧
+      Div.ibigRem W (.ofInt W a) (.ofInt W b) = .error .divideByZero ∧
+      Div.ibigDivEuclid W (.ofInt W a) (.ofInt W b) = .error .divideByZero ∧ divEuclidK a b = .error .divideByZero ∧
+      Div.ibigRemEuclid W (.ofInt W a) (.ofInt W b) = .error .divideByZero ∧ remEuclidK a b = .error .divideByZero) ∧
+    (b ≠ 0 → ∃ q r e m,
+      Div.ibigDiv W (.ofInt W a) (.ofInt W b) = .ok q ∧ q.value W = Int.tdiv a b ∧
+      Div.ibigRem W (.ofInt W a) (.ofInt W b) = .ok r ∧ r.value W = Int.tmod a b ∧
+      Div.ibigDivEuclid W (.ofInt W a) (.ofInt W b) = .ok e ∧ divEuclidK a b = .ok (e.value W) ∧
+      Div.ibigRemEuclid W (.ofInt W a) (.ofInt W b) = .ok m ∧ remEuclidK a b = .ok (m.value W : Int)) := by
+  have h1 : 1 ≤ W := by omega
+  have wa := SRepr.ofInt_wf W h1 a
+  have wb := SRepr.ofInt_wf W h1 b
+  have va := SRepr.ofInt_value W h1 a
+  have vb := SRepr.ofInt_value W h1 b
+  have d := Dashu.Props.C02.ibig_div_exact W h1 hW _ _ wa wb
+  have r := Dashu.Props.C02.ibig_rem_exact W h1 hW _ _ wa wb
+  have e := Dashu.Props.C02.ibig_div_euclid_exact W h1 hW _ _ wa wb
+  have m := Dashu.Props.C02.ibig_rem_euclid_exact W h1 hW _ _ false wa wb
+  rw [va, vb] at d r e m
+  constructor
+  · intro hb
+    exact ⟨d.1 hb, r.1 hb, e.1 hb, by simp [divEuclidK, hb], m.1 hb, by simp [remEuclidK, hb]⟩
+  · intro hb
+    obtain ⟨q, hq, _, _, vq⟩ := d.2 hb
+    obtain ⟨rr, hr, _, _, vr⟩ := r.2 hb
+    obtain ⟨ee, he, _, _, ve⟩ := e.2 hb
+    obtain ⟨mm, hm, _, _, vm⟩ := m.2 hb
+    exact ⟨q, rr, ee, mm, hq, vq, hr, vr, he, by unfold divEuclidK; rw [if_neg hb, ve]; rfl, hm,
+      by unfold remEuclidK; rw [if_neg hb, vm]; rfl⟩
+
+example : ∃ q, Div.ibigDiv 64 (.ofInt 64 (-7)) (.ofInt 64 2) = .ok q ∧ q.value 64 = -3 := by
+  obtain ⟨q, _, _, _, hq, vq, _⟩ := (div_contracts_are_proved_kernels 64 (by decide) (-7) 2).2 (by decide)
+  exact ⟨q, hq, by rw [vq]; decide⟩
+
+-- ------------------------------------------------------------------ bit kernels of `reduce2` (C09)
+
+/-- `trailing_zeros` and `>>` as `Repr::reduce2` uses them ARE the mirrored and proved bit kernels of dashu-int:
+    the model's `tz n` is what `UBig::trailing_zeros` returns for `n ≠ 0` (`None` for 0), and `>>>` on the
+    denominator / the (floor) shift of the numerator are `UBig >> n` / `IBig >> n` — for every word size -/
+theorem bit_contracts_are_proved_kernels (W : Nat) (hW : 1 ≤ W) (n z : Nat) (a : Int) (byRef : Bool) :
+    ((ofNat W 0).trailingZeros W = .ok none) ∧
+    (n ≠ 0 → (ofNat W n).trailingZeros W = .ok (some (tz n))) ∧
+    ((ofNat W n).shr W z byRef).value W = n >>> z ∧
+    ibigShr W true (.ofInt W a) z byRef = a >>> z := by
+  have hc := ofNat_canon W hW n
+  have hv := ofNat_value W hW n
+  refine ⟨?_, ?_, ?_, ?_⟩
+  · exact (Dashu.Props.C09.trailing_zeros W _ (ofNat_canon W hW 0)).1 (ofNat_value W hW 0)
+  · intro hn
+    obtain ⟨k, hk, ht⟩ := (Dashu.Props.C09.trailing_zeros W _ hc).2 (by rw [hv]; exact hn)
+    rw [hv] at ht
+    have hmine : IsTz n (tz n) :=
+      ⟨Nat.mod_eq_zero_of_dvd (tz_spec n hn).1, tz_odd_quot n hn⟩
+    rw [hk, Dashu.Props.C09.trailing_count_unique ht hmine]
+  · rw [(Dashu.Props.C09.shr_exact W hW _ z byRef hc).1, hv, Nat.shiftRight_eq_div_pow]
+  · have wf := SRepr.ofInt_wf W hW a
+    rw [Dashu.Props.C09.ibig_shr_floor W hW _ z byRef ⟨wf.1, wf.2⟩, SRepr.ofInt_value W hW,
+      Int.shiftRight_eq_div_pow]
+    norm_cast
+
+example : (ofNat 64 (12 * 2 ^ 70)).trailingZeros 64 = .ok (some (tz (12 * 2 ^ 70))) :=
+  (bit_contracts_are_proved_kernels 64 (by decide) (12 * 2 ^ 70) 0 0 false).2.1 (by decide)
 
 example : NT.gcdReprM 64 6 4 = .ok 2 := by rw [← gcd_contract_is_proved_kernel 64 (by decide)]; decide
 
